@@ -19,7 +19,7 @@
 (*   StrictPositiveMin    LenConstraint requires 0 < min when both bounds are present                    *)
 (*   RaiseOnConflict      a contradiction that only shows when merging levels violates the precondition  *)
 (*                        of LenConstraint (an exception) instead of being reported as an error          *)
-EXTENDS Constraints, TLC
+EXTENDS Constraints, TLC, SequencesExt
 
 CONSTANTS Scenarios,            \* the set of scenarios explored (defined in MC_ConstraintsAlgo.tla)
           MaxLen,
@@ -27,7 +27,7 @@ CONSTANTS Scenarios,            \* the set of scenarios explored (defined in MC_
 
 None == -99                     \* "no bound" (Python None); bounds range over -1..MaxLen
 
-VARIABLES scn,        \* the scenario being processed
+VARIABLES sid,        \* the scenario being processed (index into ScnSeq)
           pc,         \* "match" | "primstack" | "inline" | "classstack" | "done"
           unit,       \* index of the unit (P1..Pj then C1..Ck) whose invariants are being matched
           ai,         \* index of the next atom of that unit
@@ -38,7 +38,10 @@ VARIABLES scn,        \* the scenario being processed
           sk,         \* class being stacked onto its parent
           errs,       \* errors were collected in the current phase (reported at the end of the phase)
           outcome     \* "running" | "ok" | "error" | "raise"
-vars == <<scn, pc, unit, ai, loose, own, prim, byval, sk, errs, outcome>>
+vars == <<sid, pc, unit, ai, loose, own, prim, byval, sk, errs, outcome>>
+
+ScnSeq == SetToSeq(Scenarios)
+scn == ScnSeq[sid]
 
 NoRes == [has |-> FALSE, mn |-> None, mx |-> None]
 NP == Len(scn.prim)
@@ -123,12 +126,12 @@ Merge(a, b) ==
 (* An error is only *collected* (the loop goes on, a later step may still raise); an exception ends the    *)
 (* run at once.                                                                                           *)
 Init ==
-    /\ scn \in Scenarios
+    /\ sid \in 1..Len(ScnSeq)
     /\ pc = "match" /\ unit = 1 /\ ai = 1 /\ loose = <<>>
     /\ own = <<>> /\ prim = <<>> /\ byval = <<>> /\ sk = 2 /\ errs = FALSE
     /\ outcome = "running"
 
-Fail(o) == outcome' = o /\ pc' = "done" /\ UNCHANGED <<scn, unit, ai, loose, own, prim, byval, sk, errs>>
+Fail(o) == outcome' = o /\ pc' = "done" /\ UNCHANGED <<sid, unit, ai, loose, own, prim, byval, sk, errs>>
 Placeholder == [v |-> NoRes, i |-> NoRes]
 \* where to go after class unit u is finished
 AfterClass(u) == /\ unit' = u + 1 /\ ai' = 1 /\ loose' = <<>>
@@ -141,7 +144,7 @@ MatchStep ==
            m == Match(a)
        IN  loose' = IF Sees(a, unit <= NP) /\ m[1] # "none" THEN Append(loose, m) ELSE loose
     /\ ai' = ai + 1
-    /\ UNCHANGED <<scn, pc, unit, own, prim, byval, sk, errs, outcome>>
+    /\ UNCHANGED <<sid, pc, unit, own, prim, byval, sk, errs, outcome>>
 
 \* all invariants of the unit matched: reduce them
 ReduceStep ==
@@ -157,18 +160,18 @@ ReduceStep ==
                ELSE IF r[1] = "error"
                     THEN byval' = Append(byval, Placeholder) /\ AfterClass(unit)     \* no in-lining after an error
                     ELSE pc' = "inline" /\ UNCHANGED <<unit, ai, loose, byval>>
-            /\ UNCHANGED <<scn, prim, sk, outcome>>
+            /\ UNCHANGED <<sid, prim, sk, outcome>>
 
 \* B: constrained primitives inherit from their parent (topological order)
 PrimStack ==
     /\ pc = "primstack"
     /\ IF errs THEN Fail("error")
        ELSE IF Len(prim) = NP
-       THEN pc' = "match" /\ UNCHANGED <<scn, unit, ai, loose, own, prim, byval, sk, errs, outcome>>
+       THEN pc' = "match" /\ UNCHANGED <<sid, unit, ai, loose, own, prim, byval, sk, errs, outcome>>
        ELSE LET j == Len(prim) + 1
                 m == IF j = 1 THEN <<"ok", own[1]>> ELSE Merge(prim[j - 1], own[j])
             IN  IF m[1] = "ok"
-                THEN prim' = Append(prim, m[2]) /\ UNCHANGED <<scn, pc, unit, ai, loose, own, byval, sk, errs, outcome>>
+                THEN prim' = Append(prim, m[2]) /\ UNCHANGED <<sid, pc, unit, ai, loose, own, byval, sk, errs, outcome>>
                 ELSE Fail(m[1])
 
 \* C (second half): the constrained primitive is in-lined into the property-level result of class `unit`
@@ -182,21 +185,21 @@ Inline ==
            ELSE /\ byval' = Append(byval, IF v[1] = "ok" THEN [v |-> v[2], i |-> it] ELSE Placeholder)
                 /\ errs' = (errs \/ v[1] = "error")
                 /\ AfterClass(unit)
-                /\ UNCHANGED <<scn, own, prim, sk, outcome>>
+                /\ UNCHANGED <<sid, own, prim, sk, outcome>>
 
 \* D: classes inherit from their parent (topological order)
 ClassStack ==
     /\ pc = "classstack"
     /\ IF errs THEN Fail("error")
        ELSE IF sk > NC
-       THEN outcome' = "ok" /\ pc' = "done" /\ UNCHANGED <<scn, unit, ai, loose, own, prim, byval, sk, errs>>
+       THEN outcome' = "ok" /\ pc' = "done" /\ UNCHANGED <<sid, unit, ai, loose, own, prim, byval, sk, errs>>
        ELSE LET mv == Merge(byval[sk - 1].v, byval[sk].v)
                 mi == Merge(byval[sk - 1].i, byval[sk].i)
             IN  IF mv[1] # "ok" THEN Fail(mv[1])
                 ELSE IF mi[1] # "ok" THEN Fail(mi[1])
                 ELSE /\ byval' = [byval EXCEPT ![sk] = [v |-> mv[2], i |-> mi[2]]]
                      /\ sk' = sk + 1
-                     /\ UNCHANGED <<scn, pc, unit, ai, loose, own, prim, errs, outcome>>
+                     /\ UNCHANGED <<sid, pc, unit, ai, loose, own, prim, errs, outcome>>
 
 Next == MatchStep \/ ReduceStep \/ PrimStack \/ Inline \/ ClassStack
 Spec == Init /\ [][Next]_vars /\ WF_vars(Next)
